@@ -534,6 +534,60 @@ func concHistory(args []string) error {
 		observe2("TextScannerLexer.Lex b* c-d", "a NewTextScannerLexer definition with its own IsIdentRune lexed to the end", want, got)
 		fmt.Printf("%s\tthe default text/scanner definition gives %q after a definition with its own IsIdentRune was used; before %q\n", status, got, want)
 	}
+	// a production implemented by user code gets a receiver of its own for every attempt, across parses as well: what an attempt
+	// that declined wrote into its receiver never shows up in a later result
+	{
+		p, err := participle.Build[hItemList](participle.Lexer(coreLexer), participle.Elide("WS", "Comment"))
+		if err == nil {
+			call := func(p *participle.Parser[hItemList], in string) string {
+				v, err := p.ParseString("", in)
+				if err != nil {
+					return "err " + err.Error()
+				}
+				var sb strings.Builder
+				for _, it := range v.Items {
+					fmt.Fprintf(&sb, "%v ", it.Seen)
+				}
+				return sb.String()
+			}
+			// (a result of ParseBytes does not change when the caller goes on using its buffer)
+			{
+				buf := []byte("alpha beta gamma")
+				v, err := p.ParseBytes("", buf)
+				if err == nil {
+					show := func() string {
+						var sb strings.Builder
+						for _, it := range v.Items {
+							fmt.Fprintf(&sb, "%v ", it.Seen)
+						}
+						return sb.String()
+					}
+					before := show()
+					for i := range buf {
+						buf[i] = 'z'
+					}
+					after := show()
+					status := "ok"
+					if before != after {
+						status = "MISMATCH"
+					}
+					observe2("read the result of ParseBytes again", "the caller overwrote its buffer", before, after)
+					fmt.Printf("%s\tthe result of ParseBytes reads %q after the caller overwrote its buffer; it read %q\n", status, after, before)
+				}
+			}
+			for i := 0; i < 5; i++ {
+				call(p, "a no b no")
+			}
+			fresh, _ := participle.Build[hItemList](participle.Lexer(coreLexer), participle.Elide("WS", "Comment"))
+			got, want := call(p, "x y"), call(fresh, "x y")
+			status := "ok"
+			if got != want {
+				status = "MISMATCH"
+			}
+			observe2("parser(user production).ParseString x y", "parses in which attempts of the user production declined after writing into their receiver", want, got)
+			fmt.Printf("%s\tafter parses with declined attempts `x y` gives %q; on a fresh parser %q\n", status, got, want)
+		}
+	}
 	// an error returned earlier keeps its text and position when the parser fails again elsewhere
 	{
 		p := participle.MustBuild[strGrammar]()
@@ -845,4 +899,24 @@ func concStress(args []string) error {
 	}
 	fmt.Printf("DONE\t%d\t%d\n", total, bad)
 	return nil
+}
+
+// hItem is a production implemented by user code that writes into its receiver BEFORE it decides to decline (on the token "no").
+type hItem struct{ Seen []string }
+
+func (h *hItem) Parse(lex *lexer.PeekingLexer) error {
+	t := lex.Peek()
+	if t.EOF() {
+		return participle.NextMatch
+	}
+	h.Seen = append(h.Seen, t.Value)
+	if t.Value == "no" {
+		return participle.NextMatch
+	}
+	lex.Next()
+	return nil
+}
+
+type hItemList struct {
+	Items []*hItem `( @@ | "no" )*`
 }
